@@ -17,6 +17,7 @@ RULE = ("request side: K/M/R x pair counts 1..4 x all TimeUnit / RandomBasis / E
         "pair; every host handle (qubit.entanglement_info.*, remote_entangled_node, EprKeepResult.*, EprMeasureResult.*) "
         "must read the tagged field of ITS pair."
         " Request sessions: up to two connections of one host open at once on a long-lived controller, each building create_measure calls (parameters from a small pool, two remotes) before either flushes; closed connections are followed by successors with the same application id, EPR socket objects are reused, the network numbering changes between runs; every request reaching the stack during a flush is compared with that connection's next call. "
+        ' Result cases also with qlink-interface 1.0 response objects; request cases also through the older create(tp=..) entry point. '
         "Non-trivial = number >= 2 or any non-default argument; distinct = "
         "distinct case description.")
 ASSUMPTIONS = ["responses are well-formed link-layer tuples; purpose id = EPR socket id (the recording stack's mapping)",
